@@ -200,6 +200,53 @@ def layout_concrete(lens):
     sx.reach("layout-concrete")
 
 
+def layout_mixed(spec):
+    """Layouts mixing objects of different types mapped with their own bit length (length 0 in the spec) or a
+    sub-byte length: absolute bit positions in the frame, frame size, neighbours."""
+    node = _node()
+    m = node.tpdo[1]
+    m.clear()
+    vs, lens = [], []
+    for code, ln in spec:
+        v = m.add_variable(C.TYPE_INDEX[code], 0, ln) if ln else m.add_variable(C.TYPE_INDEX[code])
+        vs.append(v)
+        lens.append(ln or S301.width(code))
+    total = sum(lens)
+    sx.prove(len(m.data) == (total + 7) // 8, "frame size", "C05/layout-mixed/size")
+    off = 0
+    for v, ln in zip(vs, lens):
+        sx.prove(v.offset == off and v.length == ln, "offset/length", "C05/layout-mixed/offset")
+        off += ln
+    F = len(m.data)
+    frame = sx.fresh_bytes("frame", F)
+    m.data = sx.mod("builtins").bytearray(frame) if not sx.symbolic() else _ba(frame)
+    fi = _frame_int(sx.items(frame))
+    j = sx.choice(len(spec), "j")
+    code, ln = spec[j][0], lens[j]
+    name, signed = _field_cfg(code, ln)
+    pos = sum(lens[:j])
+    mask = (1 << ln) - 1
+    if code in (S301.REAL32, S301.REAL64):
+        vb = sx.fresh_bytes("val", ln // 8)
+        low = sx.le_int(sx.items(vb), False)
+        vs[j].data = vb
+    elif code == S301.BOOLEAN:
+        b = sx.fresh_bool("val")
+        low = sx.ite(b, 1, 0)
+        vs[j].raw = b
+    else:
+        val = sx.fresh_int("val", -(1 << (ln - 1)), (1 << (ln - 1)) - 1) if signed else sx.fresh_int("val", 0, mask)
+        low = val & mask
+        vs[j].raw = val
+    items = sx.items(m.data)
+    sx.observe("new", m.data)
+    sx.prove(len(items) == F, "frame length unchanged", "C05/layout-mixed/frame-length")
+    if len(items) == F:
+        sx.prove(_frame_int(items) == ((fi & ~(mask << pos)) | (low << pos)),
+                 "exactly the bits at the variable's absolute position change", "C05/layout-mixed/bits")
+    sx.reach("layout-mixed")
+
+
 def default_lengths():
     """An object mapped without a custom length occupies its own bit length."""
     node = _node()
@@ -238,10 +285,18 @@ def jobs(tier):
         out.append(dict(func="layout", params=dict(k=k), weight=k))
     out.append(dict(func="default_lengths", params={}))
     out.append(dict(func="layout_step", params={}, weight=4))
-    concrete = [[8] * 8, [1, 2, 3, 4, 5, 6, 7, 8], [1, 1, 1, 1, 1, 1, 1, 57], [3, 5, 7, 9, 11, 13]]
+    concrete = [[8] * 8, [1, 2, 3, 4, 5, 6, 7, 8], [1, 1, 1, 1, 1, 1, 1, 8], [3, 5, 7, 2, 6, 8, 1]]
     if tier == "thorough":
-        concrete += [[7, 9, 7, 9, 7, 9, 16], [1] * 8, [2, 6, 8, 8, 8, 8, 8, 16], [13, 3, 16, 1, 7, 24], [5, 5, 5, 5, 5, 5, 5, 5],
-                     [64 - 21, 1, 2, 3, 4, 5, 6], [9, 9, 9, 9, 9, 9, 9]]
+        concrete += [[7, 1, 7, 1, 7, 1, 8, 8], [1] * 8, [2, 6, 8, 8, 8, 8, 8, 8], [5, 3, 6, 1, 7, 4, 2], [5, 5, 5, 5, 5, 5, 5, 5],
+                     [8, 1, 2, 3, 4, 5, 6, 7], [4] * 8]
+    mixed = [[[0x01, 1], [0x06, 0], [0x02, 3]], [[0x05, 5], [0x07, 0], [0x03, 0], [0x01, 1]],
+             [[0x02, 3], [0x10, 0], [0x08, 0], [0x05, 4]], [[0x01, 1], [0x01, 1], [0x15, 0], [0x02, 6]]]
+    if tier == "thorough":
+        mixed += [[[0x05, k], [c, 0], [0x02, 3]] for k in range(1, 8) for c in (0x03, 0x04, 0x06, 0x07, 0x08, 0x10, 0x12, 0x13, 0x16, 0x18)]
+        mixed += [[[0x01, 1], [0x11, 0]], [[0x02, 7], [0x14, 0], [0x01, 1]], [[0x05, 2], [0x19, 0], [0x05, 6]],
+                  [[0x01, 1]] * 8 + [[0x1A, 0]], [[0x06, 0], [0x05, 4], [0x06, 0], [0x05, 4], [0x06, 0], [0x05, 8]]]
+    for spec in mixed:
+        out.append(dict(func="layout_mixed", params=dict(spec=spec), weight=len(spec)))
     for lens in concrete:
         out.append(dict(func="layout_concrete", params=dict(lens=lens), weight=len(lens)))
     return out
@@ -259,15 +314,16 @@ META = dict(
     bounds=dict(quick="all 16 integer types (8-bit types with field lengths 1..8), BOOLEAN (1 and 8 bits), REAL32/64; "
                       "frame length F=1..8 bytes; offset symbolic over 0..8F-len; frame content and value fully "
                       "symbolic; layout arithmetic for k<=4 variables with symbolic lengths, plus the inductive "
-                      "layout step (symbolic running bit count 0..63 and length 1..64) and 4 concrete layouts of 6..8 "
-                      "variables with a symbolic frame and a symbolic written value",
-                thorough="as quick; layout arithmetic for k<=5 (k=6 ran past 800 s); 11 concrete layouts of 6..9 variables"),
+                      "layout step (symbolic running bit count 0..63 and length 1..64) and 4 concrete layouts of 7..8 "
+                      "sub-byte/byte fields with a symbolic frame and a symbolic written value; 4 mixed-type layouts (own lengths and sub-byte "
+                      "fields, absolute bit positions)",
+                thorough="as quick; layout arithmetic for k<=5 (k=6 ran past 800 s); 11 concrete layouts of 7..8 sub-byte/byte fields; 79 mixed-type layouts (every wide type after 1..7 padding bits)"),
     outside_bounds=["frames longer than 8 bytes (CAN classic limit of the property)", "values that do not fit the "
                     "field", "sub-byte fields of multi-byte types (not in the statement)"],
     assumptions=["offset/length attributes set directly on the PdoVariable for the field harness (the layout "
                  "harness proves add_variable computes them as the running sum)"],
     stubs=["struct", "bytes", "bytearray", "math.ceil on exact rationals", "logging -> null"],
-    required_reach=["read", "write", "layout", "own-length", "layout-step", "layout-concrete"],
+    required_reach=["read", "write", "layout", "own-length", "layout-step", "layout-concrete", "layout-mixed"],
     limits=dict(quick=dict(query_timeout_ms=60000), thorough=dict(query_timeout_ms=300000, crosscheck_every=5, crosscheck_max=30)),
     validate_every=dict(quick=3, thorough=1),
 )
